@@ -65,6 +65,7 @@ pub struct Fixed {
     pub validators: Vec<String>,
     pub unbonding_time: u64,
     pub addr_pool: u8,
+    pub api: u8,
 }
 
 #[derive(Clone, Debug, PartialEq, Eq, PartialOrd, Ord)]
@@ -204,6 +205,25 @@ pub fn alien_text(addr: &str) -> String {
     }
 }
 
+/// Address number `j` of the custom address generator's pool (`Setup::addr_pool`). Pools >= 128 are
+/// *adjacent* pools: every odd address is its predecessor with the last character incremented, i.e.
+/// the very next string - not an address of the codec, but the generator's word is taken unchecked,
+/// and the two contracts' key spaces are neighbours in the root store.
+pub fn pool_address(api: &dyn cosmwasm_std::Api, pool: u8, instance_id: u64) -> String {
+    let k = (pool & 0x7f).max(1) as u64;
+    let j = instance_id % k;
+    let base = |j: u64| api.addr_humanize(&classic_canonical(1, j)).map(|a| a.to_string()).unwrap_or_default();
+    if pool >= 128 && j % 2 == 1 {
+        let mut s = base(j - 1).into_bytes();
+        if let Some(l) = s.last_mut() {
+            *l += 1;
+        }
+        String::from_utf8_lossy(&s).into_owned()
+    } else {
+        base(j)
+    }
+}
+
 pub fn classic_address(code_id: u64, instance_id: u64) -> String {
     api().addr_humanize(&classic_canonical(code_id, instance_id)).unwrap().to_string()
 }
@@ -223,6 +243,7 @@ pub struct Interp<'a> {
     pub nodes_rt: BTreeMap<usize, NodeRt>,
     pub qnodes_rt: BTreeMap<usize, QNodeRt>,
     pub reply_lookup: BTreeMap<(String, u64, Vec<u8>), usize>,
+    pub reply_queue: BTreeMap<(String, u64, Vec<u8>), std::collections::VecDeque<usize>>,
     pub trace: Vec<TraceEntry>,
     /// number of failures met before each trace entry was pushed
     pub fail_before: Vec<usize>,
@@ -254,6 +275,7 @@ impl<'a> Interp<'a> {
             nodes_rt: BTreeMap::new(),
             qnodes_rt: BTreeMap::new(),
             reply_lookup: BTreeMap::new(),
+            reply_queue: BTreeMap::new(),
             trace: vec![],
             fail_before: vec![],
             funded_fail_before: vec![],
@@ -302,6 +324,8 @@ impl<'a> Interp<'a> {
             ARef::User(i) => self.fx.users[i as usize % self.fx.users.len()].clone(),
             ARef::C(c) => self.cref(c),
             ARef::Fresh(i) => self.fx.fresh[i as usize % self.fx.fresh.len()].clone(),
+            // 3: a user's address in upper case - decodes to the same bytes, but is not the normalised text
+            ARef::Raw(3) => self.fx.users[0].to_uppercase(),
             ARef::Raw(i) => ["raw0", "RAW1", "cosmwasm1raw"][i as usize % 3].to_string(),
             ARef::Alien(i) => alien_text(&self.fx.users[i as usize % self.fx.users.len()]),
         }
@@ -444,6 +468,15 @@ impl<'a> Interp<'a> {
         Ok(())
     }
 
+    /// what the puppet's balance probe at entry reports: the bank validates the address it is asked
+    /// about, so a contract living at a string that is not an address is told that the query failed
+    fn own_balance_probe(st: &MState, addr: &str) -> Vec<(String, u128)> {
+        if !Self::valid_addr(addr) {
+            return vec![("<query failed>".into(), 0)];
+        }
+        Self::all_balances(st, addr).iter().map(|c| (c.denom.clone(), c.amount.u128())).collect()
+    }
+
     pub fn all_balances(st: &MState, addr: &str) -> Vec<Coin> {
         let mut v: Vec<Coin> = st.bank.get(addr).map(|m| m.iter().filter(|(_, a)| **a > 0).map(|(d, a)| coin(*a, d.clone())).collect()).unwrap_or_default();
         v.sort_by(|a, b| a.denom.cmp(&b.denom));
@@ -493,6 +526,9 @@ impl<'a> Interp<'a> {
             }
             QSpec::ContractInfo(c) => {
                 let addr = self.cref(*c);
+                if !Self::valid_addr(&addr) {
+                    return Err(());
+                }
                 let ci = view.contracts.get(&addr).ok_or(())?;
                 let r = ContractInfoResponse::new(ci.code_id, Addr::unchecked(ci.creator.clone()), ci.admin.clone().map(Addr::unchecked), false, None);
                 ok(to_json_string(&r))
@@ -506,6 +542,9 @@ impl<'a> Interp<'a> {
             QSpec::Custom(t) => ok(to_json_string(&XQueryResp { tag: *t, marker: view.xmarks.get(t).cloned() })),
             QSpec::Smart(c, qn) => {
                 let addr = self.cref(*c);
+                if !Self::valid_addr(&addr) {
+                    return Err(());
+                }
                 let ci = view.contracts.get(&addr).ok_or(())?.clone();
                 let code = self.fx.codes.get(&ci.code_id).ok_or(())?.clone();
                 let Some(qnode) = self.tx.qnodes.get(*qn).cloned() else {
@@ -523,7 +562,7 @@ impl<'a> Interp<'a> {
                     block: view.block.clone(),
                     sender: None,
                     funds: vec![],
-                    own_balance: Self::all_balances(view, &addr).iter().map(|c| (c.denom.clone(), c.amount.u128())).collect(),
+                    own_balance: Self::own_balance_probe(view, &addr),
                     reply: None,
                     pre_queries: vec![],
                     reads: vec![],
@@ -623,7 +662,7 @@ impl<'a> Interp<'a> {
             block: self.st.block.clone(),
             sender: sender.map(|s| s.to_string()),
             funds: funds.iter().map(|c| (c.denom.clone(), c.amount.u128())).collect(),
-            own_balance: Self::all_balances(&self.st, addr).iter().map(|c| (c.denom.clone(), c.amount.u128())).collect(),
+            own_balance: Self::own_balance_probe(&self.st, addr),
             reply,
             pre_queries: vec![],
             reads: vec![],
@@ -818,8 +857,11 @@ impl<'a> Interp<'a> {
     fn reply(&mut self, contract: &str, s: &Sub, rec: ReplyRec, depth: usize) -> R<Resp> {
         let mode = if rec.ok { "handle_success" } else { "handle_failure" };
         let entry = Event::new("reply").add_attribute("_contract_address", contract).add_attribute("mode", mode);
-        // the node is found through the (contract, id, payload) table, like the puppet does
-        let node = self.reply_lookup.get(&(contract.to_string(), s.id, s.payload.0.clone())).copied();
+        // the puppet finds the node through the queue of expected replies for (contract, id, payload)
+        let node = Some(s.reply).filter(|n| *n != usize::MAX);
+        if let Some(n) = node {
+            self.reply_queue.entry((contract.to_string(), s.id, s.payload.0.clone())).or_default().push_back(n);
+        }
         let out = match self.run_node(Kind::Reply, contract, node, None, &[], Some(rec), depth) {
             Ok(o) => o,
             Err(()) => {
@@ -1053,8 +1095,11 @@ impl<'a> Interp<'a> {
         };
         let instance_id = self.st.contracts.len() as u64;
         let addr = match &salt {
-            None if self.fx.addr_pool > 0 => classic_address(1, instance_id % self.fx.addr_pool as u64),
+            None if self.fx.addr_pool > 0 => pool_address(&api(), self.fx.addr_pool, instance_id),
             None => classic_address(code_id, instance_id),
+            // the crate's own Api canonicalises only the normalised (lower-case) text of an address;
+            // cosmwasm-std's MockApi also takes the upper-case spelling
+            Some(_) if self.fx.api == 1 && !Self::valid_addr(sender) => return fail(self),
             Some(s) => match salted_address(&code.checksum, sender, s) {
                 Some(a) => a,
                 None => return fail(self),
